@@ -6,6 +6,10 @@ import (
 	"context"
 	"io"
 
+	"google.golang.org/grpc/encoding"
+	protoenc "google.golang.org/grpc/encoding/proto"
+	"google.golang.org/grpc/mem"
+
 	"github.com/avos-io/goat/gen/testproto"
 	"google.golang.org/grpc"
 )
@@ -66,3 +70,22 @@ func zzPair() (client RpcReadWriter, server RpcReadWriter) {
 }
 
 func ioEOF() error { return io.EOF }
+
+// zzEnc / zzDec encode and decode a testproto.Msg through the codec in force (the engine's
+// codec model symbolically, the real protobuf codec natively), so that harnesses that build
+// or inspect bodies behave the same in both worlds.
+func zzEnc(v int32) []byte {
+	bs, err := encoding.GetCodecV2(protoenc.Name).Marshal(&testproto.Msg{Value: v})
+	if err != nil {
+		panic(err)
+	}
+	return bs.Materialize()
+}
+
+func zzDec(b []byte) int32 {
+	m := new(testproto.Msg)
+	if err := encoding.GetCodecV2(protoenc.Name).Unmarshal(mem.BufferSlice{mem.SliceBuffer(b)}, m); err != nil {
+		return -1
+	}
+	return m.Value
+}
